@@ -29,6 +29,8 @@ COMMON = r"""
 #include <cstdio>
 #include <functional>
 #include <type_traits>
+#include <sstream>
+#include <iostream>
 
 static int g_status = 0;
 struct Printer { std::string name; std::function<void()> print; };
@@ -106,6 +108,13 @@ static EvtStore* evtStore() { return &g_store; }
 static bool book(const TTree& t) { g_trees[t.name] = new TTree(t); return true; }
 static TTree* tree(const char* n) { return g_trees.at(n); }
 struct StatusCode { enum V { SUCCESS, FAILURE } v; StatusCode(V x) : v(x) {} };
+// the algorithm's messaging macros (AsgMessaging): the text is built and dropped
+#define ANA_MSG_LVL(x) do { std::ostringstream vp_msg_; vp_msg_ << x; } while (0)
+#define ANA_MSG_VERBOSE(x) ANA_MSG_LVL(x)
+#define ANA_MSG_DEBUG(x) ANA_MSG_LVL(x)
+#define ANA_MSG_INFO(x) ANA_MSG_LVL(x)
+#define ANA_MSG_WARNING(x) ANA_MSG_LVL(x)
+#define ANA_MSG_ERROR(x) ANA_MSG_LVL(x)
 #define ANA_CHECK(x) do { if (!(x)) { g_status = 1; return StatusCode::FAILURE; } } while (0)
 """
     else:
@@ -117,6 +126,8 @@ template <class T> struct Handle { const T* p = nullptr; const T& operator*() co
 struct InputTag { std::string label; InputTag(const char* l) : label(l) {} InputTag(const std::string& l) : label(l) {} };
 template <class T> struct EDGetTokenT { std::string label; };
 template <class T> struct Service { T* operator->() { static T t; return &t; } };
+struct LogSink { LogSink(const char* = "") {} template <class T> LogSink& operator<<(const T&) { return *this; } };
+typedef LogSink LogInfo; typedef LogSink LogWarning; typedef LogSink LogError; typedef LogSink LogVerbatim;
 }
 using edm::Handle;
 struct TFileService { template <class T> T* make(const char* n, const char* title) { auto t = new T(n, title); g_trees[n] = t; return t; } };
@@ -240,6 +251,27 @@ def run_one(backend: str, r: Dict[str, Any], events: List[Dict[str, Any]], synta
         return {"compiled": True, "rc": q.returncode, "events": parse_output(q.stdout), "branches": [l.split()[1:] for l in q.stdout.splitlines() if l.startswith("BRANCH")]}
     finally:
         shutil.rmtree(d, ignore_errors=True)
+
+
+def syntax_check(backend: str, r: Dict[str, Any], events: List[Dict[str, Any]]) -> Dict[str, Any]:
+    """g++ -fsyntax-only on the real text: does it compile, and does it contain an implicit narrowing conversion
+    from a floating value to an integer variable (`-Wfloat-conversion`)? The Lean semantics does not convert on
+    assignment, so such a program is handed to g++ for its rows."""
+    d = tempfile.mkdtemp(prefix="vp_gxx_")
+    try:
+        cc = os.path.join(d, "job.cxx")
+        with open(cc, "w") as f:
+            f.write(program(backend, r, events[:1]))
+        p = subprocess.run(["g++", "-std=c++17", "-fsyntax-only", "-Wfloat-conversion", cc], capture_output=True, text=True, timeout=120)
+        narrowing = [l for l in p.stderr.splitlines() if "-Wfloat-conversion" in l and ("to ‘int’" in l or "to 'int'" in l or "to ‘bool’" in l)]
+        return {"compiled": p.returncode == 0, "errors": p.stderr[-1500:] if p.returncode != 0 else "", "narrowing": narrowing[:5]}
+    finally:
+        shutil.rmtree(d, ignore_errors=True)
+
+
+def syntax_checks(jobs: List[tuple], workers: int = 14) -> List[Dict[str, Any]]:
+    with ThreadPoolExecutor(max_workers=workers) as ex:
+        return list(ex.map(lambda j: syntax_check(*j), jobs))
 
 
 def run_case(backend: str, r: Dict[str, Any], events: List[Dict[str, Any]], per_event=True, job=False, rev=False) -> Dict[str, Any]:
